@@ -14,7 +14,7 @@ ASSUMPTIONS = ['mantissa alphabet = every boundary of the byte/sign structure (s
 
 CHAINS = ('mainnet', 'testnet', 'signet', 'regtest')
 MANT_BASE = [0, 1, 0x7f, 0x80, 0xff, 0x100, 0x7fff, 0x8000, 0xffff, 0x10000, 0x7fffff]
-MANTS = sorted(set(MANT_BASE + [m | 0x800000 for m in MANT_BASE] + [0xffffff, 0x0377ae, 0x0377af, 0x00ffff, 0x7fffff]))
+MANTS = sorted(set(MANT_BASE + [m | 0x800000 for m in MANT_BASE] + [0xffffff, 0x0377ae, 0x0377af, 0x0377ad, 0x00ffff, 0x7fffff, 0x000101, 0x001234, 0x00fffe, 0x012345, 0x7ffffe]))
 
 
 def bounds(tier):
@@ -191,10 +191,10 @@ class PowHistories(Family):
     name = 'pow_call_histories'
     engine = 'E2'
     nontrivial_rule = 'history contains a chain selection followed by a check'
-    PROBES = [(0, 0x1d00ffff), (0, 0x1e0377ae), (0, 0x207fffff), (0, 0x1d010000), (1 << 230, 0x1e0377ae), (0, 0x01003456)]
+    PROBES = [(0, 0x1d00ffff), (0, 0x1e0377ae), (0, 0x207fffff), (0, 0x1d010000), (1 << 230, 0x1e0377ae), (0, 0x01003456), (0, 0x21007fff)]
 
     def events(self):
-        return [('sel', c) for c in CHAINS] + [('pow', i) for i in range(len(self.PROBES))]
+        return [('sel', c) for c in CHAINS] + [('sel', 'nosuchchain')] + [('pow', i) for i in range(len(self.PROBES))]
 
     def shards(self, tier):
         return list(range(len(self.events())))
@@ -215,8 +215,14 @@ class PowHistories(Family):
         for n, i in enumerate(seq):
             kind, x = ev[i]
             if kind == 'sel':
-                bitcoin.SelectParams(x)
-                cur = x
+                try:
+                    bitcoin.SelectParams(x)
+                    if x not in CHAINS:
+                        raise Viol('SelectParams(%r) accepted' % x, 'ValueError', None)
+                    cur = x
+                except ValueError:
+                    if x in CHAINS:
+                        raise
                 selected = True
                 continue
             hv, nbits = self.PROBES[x]
